@@ -46,6 +46,9 @@ def _programs(depth, named):
     for a, b in itertools.product(small, repeat=2):
         out.append(["FU", a, b])
         out.append(["P", a, b])
+    for a in small:
+        out.append(["P", a, ["pass"]])        # 'passthrough' is also a legal Pipeline step
+        out.append(["P", ["pass"], a])
     ct_children = small + [["pass"]]
     for a in ct_children:
         for rem in ("drop", "passthrough"):
